@@ -14,6 +14,7 @@ func init() {
 			acceptRules(c, "C10")
 			c17Selection(c)
 			parserHelperRules(c, "C10")
+			configReadOnlyRules(c, "C10")
 		},
 	})
 }
